@@ -220,3 +220,11 @@ Theorem C04_an_emitted_unit_property_slot_is_read_back_as_the_set :
              c_vs := c_vs c; c_vu := c_vu c; c_unk := c_unk c; c_pad := c_pad c; c_idx := Some (i0 + 1)%N |}].
 Proof. exact an_emitted_cuwp_slot_reads_back. Qed.
 Print Assumptions C04_an_emitted_unit_property_slot_is_read_back_as_the_set.
+
+(* ... and the switch table: entry k of the lookup a later load builds is switch k with the name that was written for it *)
+Theorem C04_the_emitted_switch_table_is_read_back_name_by_name :
+  forall L ss v j s,
+    (N.of_nat (length (sl_by_id L)) <= 1000000)%N -> swnm_encode L ss = Ok v -> nth_error ss j = Some s ->
+    nth_error (swnm_lookup L v) j = Some (N.of_nat j, {| s_name := s_name s; s_idx := Some (N.of_nat j); s_oid := 0%N |}).
+Proof. exact an_emitted_switch_table_reads_back. Qed.
+Print Assumptions C04_the_emitted_switch_table_is_read_back_name_by_name.
